@@ -481,3 +481,82 @@ Proof.
   intros v' Hf'. apply feasible_Feas in Hf'. destruct (decode_score K n P v' M Hf') as [W' E'].
   rewrite Eo, <- E'. apply opt_lower; assumption.
 Qed.
+
+(** * the decoded ranking has no empty bucket *)
+Lemma close_buckets_all_nonempty L : forall cur B, B <> [] -> Forall (fun b => b <> []) (close_buckets L cur B).
+Proof.
+  induction L as [|[e d] L IH]; intros cur B HB; cbn [close_buckets]; [constructor; [exact HB|constructor]|].
+  destruct (d =? cur); [apply IH; destruct B; discriminate|]. constructor; [exact HB|apply IH; discriminate].
+Qed.
+
+Lemma close_buckets_not_nil L : forall cur B, close_buckets L cur B <> [].
+Proof.
+  induction L as [|[e d] L IH]; intros cur B; cbn [close_buckets]; [discriminate|]. destruct (d =? cur); [apply IH|discriminate].
+Qed.
+
+Lemma close_buckets_tail_nonempty L cur B : Forall (fun b => b <> []) (tl (close_buckets L cur B)).
+Proof.
+  destruct L as [|[e d] L]; cbn [close_buckets]; [constructor|]. destruct (d =? cur).
+  - assert (H : Forall (fun b => b <> []) (close_buckets L cur (B ++ [e]))) by (apply close_buckets_all_nonempty; destruct B; discriminate).
+    destruct (close_buckets L cur (B ++ [e])); [constructor|]. inversion H; assumption.
+  - cbn [tl]. apply close_buckets_all_nonempty. discriminate.
+Qed.
+
+Lemma close_buckets_head_nonempty L cur B : (B <> [] \/ exists e L', L = (e, cur) :: L') -> hd [] (close_buckets L cur B) <> [].
+Proof.
+  assert (G : forall L cur B, B <> [] -> hd [] (close_buckets L cur B) <> []).
+  { intros L0 c0 B0 HB. pose proof (close_buckets_all_nonempty L0 c0 B0 HB) as H.
+    pose proof (close_buckets_not_nil L0 c0 B0) as Hn.
+    destruct (close_buckets L0 c0 B0); [contradiction|]. inversion H; assumption. }
+  intros [HB|(e & L' & ->)]; [apply G; exact HB|]. cbn [close_buckets]. rewrite Z.eqb_refl. apply G. destruct B; discriminate.
+Qed.
+
+Lemma argmin {A} (f : A -> Z) (l : list A) : l <> [] -> exists x, In x l /\ forall y, In y l -> f x <= f y.
+Proof.
+  induction l as [|a l IH]; intros H; [contradiction|]. destruct l as [|b l].
+  - exists a. split; [left; reflexivity|]. intros y [<-|[]]. lia.
+  - destruct (IH ltac:(discriminate)) as (x & Hx & Hm). destruct (Z.le_gt_cases (f a) (f x)).
+    + exists a. split; [left; reflexivity|]. intros y [<-|Hy]; [lia|]. specialize (Hm y Hy). lia.
+    + exists x. split; [right; exact Hx|]. intros y [<-|Hy]; [lia|apply Hm; exact Hy].
+Qed.
+
+Lemma zsum_pos_ex {A} (f : A -> Z) l : (forall x, In x l -> 0 <= f x) -> 0 < zsum (map f l) -> exists x, In x l /\ 0 < f x.
+Proof.
+  induction l as [|a l IH]; intros Hn Hp; [cbn in Hp; lia|]. cbn [map] in Hp. rewrite zsum_cons in Hp.
+  destruct (Z.lt_ge_cases 0 (f a)) as [L|L]; [exists a; split; [left; reflexivity|exact L]|].
+  destruct IH as (x & Hx & Fx); [intros x Hx; apply Hn; right; exact Hx|pose proof (Hn a (or_introl eq_refl)); lia|].
+  exists x. split; [right; exact Hx|exact Fx].
+Qed.
+
+Theorem decode_nonempty n P v : (0 < n)%nat -> Feas n P v -> Forall (fun b => b <> []) (decode n v).
+Proof.
+  intros Hn F.
+  (* an element without predecessor *)
+  destruct (argmin (defeats n v) (seq 0 n)) as (j0 & Hj0 & Hmin); [destruct n; [lia|discriminate]|].
+  apply in_seq in Hj0.
+  assert (Z0 : defeats n v j0 = 0).
+  { pose proof (defeats_nonneg n v j0) as Ge. destruct (Z.eq_dec (defeats n v j0) 0) as [E|E]; [exact E|]. exfalso.
+    rewrite (defeats_ind n v) in Ge, E.
+    destruct (zsum_pos_ex (fun k => ind v k j0) (seq 0 n)) as (k & Hk & Pk).
+    - intros k _. unfold ind. destruct (Nat.eqb k j0); [lia|]. destruct (v (X k j0) =? 1); lia.
+    - lia.
+    - apply in_seq in Hk. unfold ind in Pk. destruct (Nat.eqb_spec k j0) as [->|Ne]; [lia|].
+      destruct (Z.eqb_spec (v (X k j0)) 1) as [E1|E1]; [|lia].
+      pose proof (before_lt n P v F k j0 ltac:(lia) ltac:(lia) Ne E1). specialize (Hmin k ltac:(apply in_seq; lia)). lia. }
+  unfold decode. set (items := map (fun j => (j, defeats n v j)) (seq 0 n)).
+  set (L := sort_items items).
+  assert (HL : exists e L', L = (e, 0) :: L').
+  { pose proof (sort_items_sorted items) as S. fold L in S.
+    assert (Hin : In (j0, 0) L).
+    { apply (Permutation_in _ (Permutation_sym (sort_items_perm items))). unfold items. apply in_map_iff. exists j0. split; [rewrite Z0; reflexivity|apply in_seq; lia]. }
+    assert (Hpos : forall it, In it L -> 0 <= snd it).
+    { intros it Hit. apply (Permutation_in _ (sort_items_perm items)) in Hit. unfold items in Hit.
+      apply in_map_iff in Hit as (k & <- & _). apply defeats_nonneg. }
+    clearbody L. destruct L as [|[e d] L']; [destruct Hin|]. apply StronglySorted_inv in S as [_ Hd].
+    pose proof (Hpos (e, d) (or_introl eq_refl)) as Hd0. cbn [snd] in Hd0.
+    destruct Hin as [E|Hin]; [inversion E; subst; eauto|]. rewrite Forall_forall in Hd. specialize (Hd _ Hin). unfold le_snd in Hd. cbn [snd] in Hd.
+    assert (d = 0) by lia. subst d. eauto. }
+  pose proof (close_buckets_head_nonempty L 0 [] (or_intror HL)) as Hh.
+  pose proof (close_buckets_tail_nonempty L 0 []) as Ht.
+  destruct (close_buckets L 0 []) as [|b r]; [constructor|]. constructor; [exact Hh|exact Ht].
+Qed.
